@@ -223,7 +223,7 @@ def evaluate__binary_types(self: XPathConstructor, context: ta.ContextType = Non
 
 @constructor('NOTATION')
 def cast__notation_type(self: XPathConstructor, value: ta.AtomicType) -> Notation:
-    raise NotImplementedError("No value is castable to xs:NOTATION")
+    raise self.error('XPST0080', "No value is castable to xs:NOTATION")
 
 
 @method('NOTATION')
